@@ -385,10 +385,7 @@ Qed.
 
 Lemma unwind_u_same : forall c s, same s (unwind_u c s).
 Proof.
-  intros. unfold unwind_u. destruct (handle_throw false (ts s)) as [t' h]. destruct t' as [| f r]; simpl.
-  - split; reflexivity.
-  - pose proof (restore_stacks_same c (f_it f) (set_cs (Nat.min (cs s) (f_cs f)) (set_ts (f :: r) s))) as [A B].
-    split; [rewrite A | rewrite B]; reflexivity.
+  intros. unfold unwind_u. destruct (handle_throw false (ts s)) as [t' h]. destruct t' as [| f r]; simpl; split; reflexivity.
 Qed.
 
 Lemma restore_to_same : forall c d s, same s (snd (restore_to c d s)).
